@@ -460,3 +460,54 @@ def rule_ad(ctx: Ctx) -> List[Ob]:
                       bad or f"{dims} dimensions, all components: " + "; ".join(sorted(how)),
                       construct=f"d {nm} / dx == {nm}_grad  (n = 1..{N})"))
     return obs
+
+
+@rule("ARRLIKE", min_instances=16)
+def rule_arrlike(ctx: Ctx) -> List[Ob]:
+    """the benchmark functions are documented for array_like points: each one converts its argument with np.asarray
+    (in its body or through a converting decorator) before using it, or only ever hands it to numpy functions -- raw
+    arithmetic on the parameter (`2 * x` is list repetition for a list) is not the documented function"""
+    obs: List[Ob] = []
+    m = ctx.repo.module("benchmarks")
+    CONV = ("np.asarray", "np.array", "np.atleast_1d", "np.asanyarray", "np.asfarray")
+
+    def converting_decorator(d: ast.expr) -> bool:
+        nm = d.id if isinstance(d, ast.Name) else None
+        if nm is None:
+            return False
+        for n in m.tree.body:
+            if isinstance(n, ast.FunctionDef) and n.name == nm and n.args.args:
+                farg = n.args.args[0].arg
+                for c in ast.walk(n):
+                    if isinstance(c, ast.Call) and isinstance(c.func, ast.Name) and c.func.id == farg and c.args and \
+                            isinstance(c.args[0], ast.Call) and dotted(c.args[0].func) in CONV:
+                        return True
+        return False
+    for n in m.tree.body:
+        if not isinstance(n, ast.FunctionDef) or n.name.startswith("_") or not n.args.args:
+            continue
+        p = n.args.args[0].arg
+        if any(converting_decorator(d) for d in n.decorator_list):
+            obs.append(Ob("ARRLIKE", "the point is converted to an array before it is used", m.rel, n.lineno, f"benchmarks.{n.name}", n.name, True,
+                          "converted by a decorator"))
+            continue
+        converted_at = None
+        for s in n.body:
+            if isinstance(s, ast.Assign) and len(s.targets) == 1 and isinstance(s.targets[0], ast.Name) and s.targets[0].id == p \
+                    and isinstance(s.value, ast.Call) and dotted(s.value.func) in CONV and s.value.args and src(s.value.args[0]) == p:
+                converted_at = s.lineno
+                break
+        parents = {id(c): q for q in ast.walk(n) for c in ast.iter_child_nodes(q)}
+        raw = []
+        for x in ast.walk(n):
+            if isinstance(x, ast.Name) and x.id == p and isinstance(x.ctx, ast.Load) and (converted_at is None or x.lineno < converted_at):
+                par = parents.get(id(x))
+                if isinstance(par, ast.Call) and x in par.args and (dotted(par.func) or "").startswith("np."):
+                    continue
+                raw.append(x)
+        ok = not raw
+        obs.append(Ob("ARRLIKE", "the point is converted to an array before it is used", m.rel, raw[0].lineno if raw else n.lineno,
+                      f"benchmarks.{n.name}", n.name, ok,
+                      (f"converted at line {converted_at}" if converted_at else "only handed to numpy functions") if ok else
+                      f"`{p}` is used raw at line {raw[0].lineno} (in `{short(parents.get(id(raw[0])), 40)}`): for a list or tuple this is not array arithmetic"))
+    return obs
